@@ -306,7 +306,9 @@ class RandomEviction(CacheEvictionPolicy):
         """Return a random key."""
         if not self._keys:
             return None
-        key = self._rng.choice(list(self._keys))
+        # sorted(): _keys is a set[str] whose iteration order depends on the
+        # per-process string hash seed; a seeded choice must not depend on it.
+        key = self._rng.choice(sorted(self._keys))
         self._keys.discard(key)
         return key
 
